@@ -41,15 +41,15 @@ def replay_bands(arg):
     # sampling runs concatenated): the band at a time point is made of the samples AT that time point either way
     rows1, rows2 = [], []
     for k, c in enumerate(v):
-        rows1.append({'ID': k + 1, 'Time': 1.0, 'Observable': 'A', 'Value': val(c), 'Dose': np.nan, 'Duration': np.nan})
+        rows1.append({'ID': k + 1, 'Time': 1.0, 'Observable': 'Zeta', 'Value': val(c), 'Dose': np.nan, 'Duration': np.nan})
     for k, c in enumerate(reversed(v)):
-        rows2.append({'ID': k + 1, 'Time': 2.0, 'Observable': 'A', 'Value': val(c) + 0.25, 'Dose': np.nan, 'Duration': np.nan})
+        rows2.append({'ID': k + 1, 'Time': 2.0, 'Observable': 'Zeta', 'Value': val(c) + 0.25, 'Dose': np.nan, 'Duration': np.nan})
     later_first = int(digest(rec), 16) % 2 == 1
     if later_first:
         feats.append('times_not_ascending')
         cnt['feat_times_not_ascending'] = 1
     rows = (rows2 + rows1) if later_first else (rows1 + rows2)
-    rows.append({'ID': 1, 'Time': 1.0, 'Observable': 'B', 'Value': 99.0, 'Dose': np.nan, 'Duration': np.nan})
+    rows.append({'ID': 1, 'Time': 1.0, 'Observable': 'Alpha', 'Value': 99.0, 'Dose': np.nan, 'Duration': np.nan})
     data = pd.DataFrame(rows)
     before = data.copy(deep=True)
     probs = [Fraction(b['num'], b['den']) for b in rec['bands']]
@@ -58,7 +58,10 @@ def replay_bands(arg):
             with warnings.catch_warnings():
                 warnings.simplefilter('ignore')
                 fig = getattr(chi.plots, cls)()
-                fig.add_prediction(data, observable='A', bulk_probs=[float(p) for p in probs])
+                # the observable is named, or -- every other case -- left to the documented default: the FIRST observable in
+                # the column (here 'Zeta', which is not the alphabetically first one)
+                fig.add_prediction(data, observable=('Zeta' if int(digest(rec), 16) % 4 < 2 else None),
+                                   bulk_probs=[float(p) for p in probs])
         except Exception as e:
             fail('Evaluable', type(e).__name__, dict(cls=cls, error=repr(e)))
             continue
